@@ -8,13 +8,15 @@
 package main
 
 import (
-	"encoding/json"
-	"io"
 	"bufio"
 	"context"
+	"crypto/sha256"
 	"encoding/hex"
+	"encoding/json"
 	"flag"
 	"fmt"
+	"github.com/onosproject/onos-config/pkg/utils/v2/tree"
+	"io"
 	"math/rand"
 	"os"
 	"runtime"
@@ -41,6 +43,7 @@ import (
 	"github.com/onosproject/onos-config/pkg/store/v2/proposal"
 	"github.com/onosproject/onos-config/pkg/store/v2/transaction"
 	"github.com/onosproject/onos-lib-go/pkg/controller"
+	"github.com/onosproject/onos-lib-go/pkg/errors"
 	"github.com/openconfig/gnmi/proto/gnmi"
 	"github.com/openconfig/gnmi/proto/gnmi_ext"
 	"google.golang.org/grpc/codes"
@@ -65,10 +68,76 @@ type crashCtl struct {
 	// (another replica's transaction controller that read "not found" at the same moment); -1: no race
 	race  int
 	raced bool
+	// faults: the readFault-th store read of this invocation fails (Unavailable); -1: none
+	readFault   int
+	reads       int
+	faulted     bool
+	callsAtStop int // writes completed when the first injected fault / failed write happened
+	// a write that the store refused (version conflict, not found): another invocation got in between
+	writeFailed bool
+	// mid-call interference: run once, while the device call of this invocation is in flight
+	midcall  func()
+	devCalls int
 }
 
-func (c *crashCtl) reset(b int) { c.mu.Lock(); c.budget, c.calls, c.race, c.raced = b, 0, -1, false; c.mu.Unlock() }
-func (c *crashCtl) arm(n int)    { c.mu.Lock(); c.race = n; c.mu.Unlock() }
+type crashSnap struct {
+	budget, calls, race, readFault, reads, callsAtStop, devCalls int
+	raced, faulted, writeFailed                                  bool
+}
+
+func (c *crashCtl) snapshot() crashSnap {
+	c.mu.Lock()
+	defer c.mu.Unlock()
+	return crashSnap{c.budget, c.calls, c.race, c.readFault, c.reads, c.callsAtStop, c.devCalls, c.raced, c.faulted, c.writeFailed}
+}
+func (c *crashCtl) restore(s crashSnap) {
+	c.mu.Lock()
+	defer c.mu.Unlock()
+	c.budget, c.calls, c.race, c.readFault, c.reads, c.callsAtStop, c.devCalls = s.budget, s.calls, s.race, s.readFault, s.reads, s.callsAtStop, s.devCalls
+	c.raced, c.faulted, c.writeFailed = s.raced, s.faulted, s.writeFailed
+	c.midcall = nil
+}
+
+// read is called by the store decorators before every read of the reconcilers
+func (c *crashCtl) read() error {
+	c.mu.Lock()
+	defer c.mu.Unlock()
+	c.reads++
+	if c.readFault >= 0 && c.reads-1 == c.readFault && !c.faulted {
+		c.faulted = true
+		if !c.writeFailed {
+			c.callsAtStop = c.calls
+		}
+		return errors.NewUnavailable("injected: store read failed")
+	}
+	return nil
+}
+
+// wrote is called with the result of every store write
+func (c *crashCtl) wrote(err error) error {
+	if err != nil && (errors.IsConflict(err) || errors.IsNotFound(err)) {
+		c.mu.Lock()
+		if !c.writeFailed && !c.faulted {
+			c.callsAtStop = c.calls - 1
+		}
+		c.writeFailed = true
+		c.mu.Unlock()
+	}
+	return err
+}
+func (c *crashCtl) stopped() (bool, int) {
+	c.mu.Lock()
+	defer c.mu.Unlock()
+	return c.faulted || c.writeFailed, c.callsAtStop
+}
+
+func (c *crashCtl) reset(b int) {
+	c.mu.Lock()
+	c.budget, c.calls, c.race, c.raced = b, 0, -1, false
+	c.readFault, c.reads, c.faulted, c.callsAtStop, c.writeFailed, c.midcall, c.devCalls = -1, 0, false, 0, false, nil, 0
+	c.mu.Unlock()
+}
+func (c *crashCtl) arm(n int) { c.mu.Lock(); c.race = n; c.mu.Unlock() }
 func (c *crashCtl) racing() bool {
 	c.mu.Lock()
 	defer c.mu.Unlock()
@@ -95,22 +164,42 @@ type cTxs struct {
 	c *crashCtl
 }
 
+func (s *cTxs) Get(ctx context.Context, id configapi.TransactionID) (*configapi.Transaction, error) {
+	if err := s.c.read(); err != nil {
+		return nil, err
+	}
+	return s.Store.Get(ctx, id)
+}
+func (s *cTxs) GetByIndex(ctx context.Context, index configapi.Index) (*configapi.Transaction, error) {
+	if err := s.c.read(); err != nil {
+		return nil, err
+	}
+	return s.Store.GetByIndex(ctx, index)
+}
+
 func (s *cTxs) Create(ctx context.Context, t *configapi.Transaction) error {
 	s.c.before()
-	return s.Store.Create(ctx, t)
+	return s.c.wrote(s.Store.Create(ctx, t))
 }
 func (s *cTxs) Update(ctx context.Context, t *configapi.Transaction) error {
 	s.c.before()
-	return s.Store.Update(ctx, t)
+	return s.c.wrote(s.Store.Update(ctx, t))
 }
 func (s *cTxs) UpdateStatus(ctx context.Context, t *configapi.Transaction) error {
 	s.c.before()
-	return s.Store.UpdateStatus(ctx, t)
+	return s.c.wrote(s.Store.UpdateStatus(ctx, t))
 }
 
 type cProps struct {
 	proposal.Store
 	c *crashCtl
+}
+
+func (s *cProps) Get(ctx context.Context, id configapi.ProposalID) (*configapi.Proposal, error) {
+	if err := s.c.read(); err != nil {
+		return nil, err
+	}
+	return s.Store.Get(ctx, id)
 }
 
 func (s *cProps) Create(ctx context.Context, p *configapi.Proposal) error {
@@ -123,11 +212,11 @@ func (s *cProps) Create(ctx context.Context, p *configapi.Proposal) error {
 }
 func (s *cProps) Update(ctx context.Context, p *configapi.Proposal) error {
 	s.c.before()
-	return s.Store.Update(ctx, p)
+	return s.c.wrote(s.Store.Update(ctx, p))
 }
 func (s *cProps) UpdateStatus(ctx context.Context, p *configapi.Proposal) error {
 	s.c.before()
-	return s.Store.UpdateStatus(ctx, p)
+	return s.c.wrote(s.Store.UpdateStatus(ctx, p))
 }
 
 type cCfgs struct {
@@ -135,17 +224,24 @@ type cCfgs struct {
 	c *crashCtl
 }
 
+func (s *cCfgs) Get(ctx context.Context, id configapi.ConfigurationID) (*configapi.Configuration, error) {
+	if err := s.c.read(); err != nil {
+		return nil, err
+	}
+	return s.Store.Get(ctx, id)
+}
+
 func (s *cCfgs) Create(ctx context.Context, p *configapi.Configuration) error {
 	s.c.before()
-	return s.Store.Create(ctx, p)
+	return s.c.wrote(s.Store.Create(ctx, p))
 }
 func (s *cCfgs) Update(ctx context.Context, p *configapi.Configuration) error {
 	s.c.before()
-	return s.Store.Update(ctx, p)
+	return s.c.wrote(s.Store.Update(ctx, p))
 }
 func (s *cCfgs) UpdateStatus(ctx context.Context, p *configapi.Configuration) error {
 	s.c.before()
-	return s.Store.UpdateStatus(ctx, p)
+	return s.c.wrote(s.Store.UpdateStatus(ctx, p))
 }
 
 type cTopo struct {
@@ -169,6 +265,15 @@ type cConn struct {
 
 func (s *cConn) Set(ctx context.Context, r *gnmi.SetRequest) (*gnmi.SetResponse, error) {
 	s.c.before()
+	s.c.mu.Lock()
+	s.c.devCalls++
+	hook := s.c.midcall
+	first := s.c.devCalls == 1
+	s.c.midcall = nil
+	s.c.mu.Unlock()
+	if hook != nil && first {
+		hook() // something else happens while the request is on its way
+	}
 	return s.Conn.Set(ctx, r)
 }
 
@@ -196,36 +301,41 @@ type nbCall struct {
 }
 
 type H struct {
-	e       *env.Env
-	plugin  *fakes.PluginClient
-	devs    map[string]*fakes.Device
-	devPos  map[string]int
-	policy  map[string][]codes.Code // upcoming answers per target
-	txR     *txctl.Reconciler
-	propR   *propctl.Reconciler
-	cfgR    *cfgctl.Reconciler
-	mstR    *mstctl.Reconciler
-	connR   *connection.Reconciler
-	crash   *crashCtl
-	r       *rand.Rand
-	out     *bufio.Writer
-	hid     string
-	step    int
-	nb      []*nbCall
-	connSeq int
-	knownC  map[string]bool // connection ids ever used
-	lastDoc     []byte       // the document of the validation seen during the current step
-	lastVerdict int          // -1 none, 0 reject, 1 accept (during the current step)
-	vmu     sync.Mutex
-	targets []string
-	lastState string
-	steps   int
-	noops   int
-	rs      *rand.Rand // scenario choices (the same for a crash history and its crash-free twin)
-	focus int
-	script []op
-	twin    string     // outcome summary of the crash-free twin ("" = none)
-	raw     map[configapi.ConfigurationID]_map.Map[string, *configapi.PathValue]
+	e           *env.Env
+	plugin      *fakes.PluginClient
+	devs        map[string]*fakes.Device
+	devPos      map[string]int
+	policy      map[string][]codes.Code // upcoming answers per target
+	txR         *txctl.Reconciler
+	propR       *propctl.Reconciler
+	cfgR        *cfgctl.Reconciler
+	mstR        *mstctl.Reconciler
+	connR       *connection.Reconciler
+	crash       *crashCtl
+	r           *rand.Rand
+	out         *bufio.Writer
+	hid         string
+	step        int
+	nb          []*nbCall
+	connSeq     int
+	knownC      map[string]bool // connection ids ever used
+	lastDoc     []byte          // the document of the validation seen during the current step
+	lastVerdict int             // -1 none, 0 reject, 1 accept (during the current step)
+	vmu         sync.Mutex
+	targets     []string
+	lastState   string
+	steps       int
+	noops       int
+	rs          *rand.Rand // scenario choices (the same for a crash history and its crash-free twin)
+	focus       int
+	faults      bool // inject store read faults and mid-call interference (atomic histories only)
+	nesting     int
+	interf      bool // run another invocation inside the device call of a proposal invocation (atomic histories only)
+	midcalls    int
+	expectDocs  []string // runChunks: digests of the documents the validations must have received
+	script      []op
+	twin        string // outcome summary of the crash-free twin ("" = none)
+	raw         map[configapi.ConfigurationID]_map.Map[string, *configapi.PathValue]
 }
 
 func tnum(t string) string { return strings.TrimPrefix(t, "t") }
@@ -239,7 +349,7 @@ func hx(s string) string {
 
 func newH(seed int64, hid string, out *bufio.Writer, ntargets int, persistent map[string]bool) *H {
 	h := &H{devs: map[string]*fakes.Device{}, devPos: map[string]int{}, policy: map[string][]codes.Code{},
-		crash: &crashCtl{budget: -1}, r: rand.New(rand.NewSource(seed)), out: out, hid: hid, knownC: map[string]bool{}, lastVerdict: -1,
+		crash: &crashCtl{budget: -1, race: -1, readFault: -1}, r: rand.New(rand.NewSource(seed)), out: out, hid: hid, knownC: map[string]bool{}, lastVerdict: -1,
 		raw: map[configapi.ConfigurationID]_map.Map[string, *configapi.PathValue]{}}
 	h.rs = h.r
 	h.plugin = &fakes.PluginClient{Name: ttype, Version: tversion}
@@ -638,9 +748,28 @@ func (h *H) allIDs() []recID {
 
 // reconcile runs one reconcile invocation, stopping it after `budget` store/device write calls (-1: no limit)
 func (h *H) reconcile(id recID, budget int) {
+	nested := h.nesting > 0
+	var outer crashSnap
+	if nested {
+		outer = h.crash.snapshot()
+	}
 	h.crash.reset(budget)
 	if id.kind == "tx" && budget < 0 && h.r.Intn(3) == 0 {
 		h.crash.arm(h.r.Intn(2))
+	}
+	if h.interf && budget < 0 && !nested {
+		if h.faults && h.r.Intn(12) == 0 {
+			// a store read of this invocation fails
+			h.crash.mu.Lock()
+			h.crash.readFault = h.r.Intn(3)
+			h.crash.mu.Unlock()
+		} else if id.kind == "prop" && h.r.Intn(2) == 0 {
+			// while the device call of this invocation (if it makes one) is in flight, another invocation about the
+			// same target runs
+			h.crash.mu.Lock()
+			h.crash.midcall = func() { h.interfere(id) }
+			h.crash.mu.Unlock()
+		}
 	}
 	h.vmu.Lock()
 	h.lastVerdict = -1
@@ -695,11 +824,16 @@ func (h *H) reconcile(id recID, budget int) {
 	}
 	calls := h.crash.count()
 	raced := h.crash.didRace()
+	stopped, callsAtStop := h.crash.stopped()
 	h.crash.reset(-1)
+	if nested {
+		h.crash.restore(outer)
+	}
 	h.vmu.Lock()
 	v := h.lastVerdict
 	doc := h.lastDoc
 	h.lastDoc = nil
+	h.lastVerdict = -1
 	h.vmu.Unlock()
 	var lab string
 	switch id.kind {
@@ -717,6 +851,11 @@ func (h *H) reconcile(id recID, budget int) {
 	b := "all"
 	if res == "crash" {
 		b = strconv.Itoa(calls)
+	} else if stopped {
+		// a store read failed, or a write was refused because something else had written in between: the invocation
+		// must have given up there - what it did is its writes up to that point
+		b = "f" + strconv.Itoa(callsAtStop)
+		res = "fault:" + res
 	} else if raced {
 		// the invocation lost the race for one proposal and gave up: what is stored is the work of both replicas,
 		// i.e. this invocation's writes so far (the lost Create included, with identical content)
@@ -1095,9 +1234,39 @@ func (h *H) randomSteps(n int, crashProb int) {
 	}
 }
 
+// interfere runs, nested inside the device call of the invocation [outer], one other invocation that concerns the same
+// target: another proposal of the target (a second replica), its configuration or mastership reconciler, or a transaction
+func (h *H) interfere(outer recID) {
+	cands := []recID{}
+	for _, id := range h.allIDs() {
+		if id.kind == outer.kind && id.a == outer.a && id.idx == outer.idx {
+			continue
+		}
+		switch id.kind {
+		case "prop", "cfg", "master":
+			if id.a == outer.a {
+				cands = append(cands, id)
+			}
+		case "tx":
+			cands = append(cands, id)
+		}
+	}
+	if len(cands) == 0 {
+		return
+	}
+	h.nesting++
+	h.midcalls++
+	h.reconcile(cands[h.r.Intn(len(cands))], -1)
+	h.nesting--
+}
+
 // settle runs passes over every id until a complete pass changes nothing
 func (h *H) settle(maxPasses int, crashProb int) bool {
+	faults := h.faults
+	defer func() { h.faults = faults }()
 	for p := 0; p < maxPasses; p++ {
+		// injected faults only in the first passes: a pass in which invocations were made to fail says nothing about rest
+		h.faults = faults && p < 6
 		before := h.lastState
 		n0 := h.devTotal()
 		ids := h.allIDs()
@@ -1110,7 +1279,7 @@ func (h *H) settle(maxPasses int, crashProb int) bool {
 			}
 			h.reconcile(id, budget)
 		}
-		if h.lastState == before && h.devTotal() == n0 {
+		if h.lastState == before && h.devTotal() == n0 && !h.faults {
 			return true
 		}
 	}
@@ -1196,6 +1365,7 @@ func (h *H) finish(quiescent bool) string {
 		tw = "-"
 	}
 	fmt.Fprintf(h.out, "p2.end\t%s\t%d\t(nb %s)\t%s\t%d\t%d\t%s\t%s\n", h.hid, q, b.String(), strings.Join(gets, ";"), h.steps, h.noops, sum, tw)
+	fmt.Fprintf(h.out, "p2.inject\t%s\tmidcalls=%d\n", h.hid, h.midcalls)
 	return sum
 }
 
@@ -1219,7 +1389,11 @@ func (h *H) emitChunks() {
 		}
 		ss[i] = strings.Join(cs, ",")
 	}
-	fmt.Fprintf(h.out, "p2.chunks\t%s\t%s\t%s\n", h.hid, strings.Join(ss, ";"), strings.Join(shas, ";"))
+	exp := "-"
+	if len(h.expectDocs) > 0 {
+		exp = strings.Join(h.expectDocs, ";")
+	}
+	fmt.Fprintf(h.out, "p2.chunks\t%s\t%s\t%s\t%s\n", h.hid, strings.Join(ss, ";"), strings.Join(shas, ";"), exp)
 }
 
 // runChunks drives one Set with a value larger than the plugin's chunk size (and a small one after it) through the real
@@ -1248,12 +1422,26 @@ func runChunks(seed int64, k int, out *bufio.Writer) {
 	if r.Intn(2) == 0 {
 		h.connUp(h.targets[0])
 	}
-	h.nbSet([]op{{target: h.targets[0], path: "/z", val: "v" + strings.Repeat("x", ln)}}, true, false)
+	big := "v" + strings.Repeat("x", ln)
+	small := fmt.Sprintf("v%d", r.Intn(1000))
+	h.nbSet([]op{{target: h.targets[0], path: "/z", val: big}}, true, false)
 	h.settle(80, 0)
-	h.nbSet([]op{{target: h.targets[0], path: "/q", val: fmt.Sprintf("v%d", r.Intn(1000))}}, true, false)
+	h.nbSet([]op{{target: h.targets[0], path: "/q", val: small}}, true, false)
 	q := h.settle(80, 0)
 	h.finish(q)
 	h.out = out
+	// the documents the two validations must have been given, built independently of the transport
+	sv := func(p, v string) *configapi.PathValue {
+		return &configapi.PathValue{Path: p, Value: configapi.TypedValue{Bytes: []byte(v), Type: configapi.ValueType_STRING}}
+	}
+	for _, vals := range [][]*configapi.PathValue{{sv("/z", big)}, {sv("/z", big), sv("/q", small)}} {
+		doc, err := tree.BuildTree(vals, true)
+		if err != nil {
+			panic(err)
+		}
+		sum := sha256.Sum256(doc)
+		h.expectDocs = append(h.expectDocs, hex.EncodeToString(sum[:])[:16])
+	}
 	h.emitChunks()
 	for _, c := range h.e.Conns.IDs() {
 		h.e.Conns.RemoveConn(c[0])
@@ -1287,6 +1475,8 @@ func runScenario(seed int64, n int, out *bufio.Writer, kind string, suffix strin
 	h := newH(sched, hid, out, nt, pers)
 	h.rs = rand.New(rand.NewSource(seed*104729 + int64(n)))
 	h.twin = twin
+	h.faults = kind == "atomic"
+	h.interf = kind == "atomic"
 	r := h.rs
 	if n%4 == 3 {
 		h.focus = 1 + int(n/4)%2
